@@ -45,6 +45,12 @@ FaultConstraint ==
     /\ NoTrailingEnv
     /\ nenv <= gen
     /\ (run.pc # "idle" => ~run.wantForced)
+\* ... and the same with the faulted run - and only it - FORCED (flag, configuration or both): a forced run that fails
+\* must not leave a record behind either, whatever "bypassing the cache" means for the run itself
+ForcedFaultConstraint ==
+    /\ NoTrailingEnv
+    /\ nenv <= gen
+    /\ (run.pc # "idle" => (run.wantForced <=> run.fault.kind # "none"))
 FaultInit == Init /\ hasCmds = TRUE /\ hasEvents = TRUE
 FaultSpec == FaultInit /\ [][Next]_vars
 
